@@ -286,6 +286,106 @@ def config_id(config):
 
 
 # --------------------------------------------------------------------------
+# sessions: several integrators compiled one after the other in ONE process.
+# Nothing in the property depends on what the process compiled before, so
+# every member is judged against ITS OWN literal reading.  The members are
+# different classes that an implementation keeping process-wide state "per
+# class NAME" cannot tell apart: all integrator classes are called
+# GenIntegrator and all stepper classes G900_<i>, they live in one module and
+# have the same __qualname__:
+#   factory  : classes defined in the if/elif branches of one factory function
+#              (qualname make_member.<locals>.GenIntegrator for all of them)
+#   redefine : the class statement executed again with another body (a class
+#              re-defined in an interactive session / a reloaded module)
+#   type     : type('GenIntegrator', (Base,), {'one_timestep': f}) with
+#              another f (itself a re-defined function `one_timestep`)
+# a member is either a generated one_timestep or a subclass of a shipped
+# integrator that INHERITS its one_timestep (no text of its own).
+SESSION_STYLES = ('factory', 'redefine', 'type')
+SESSION_INTEG = 'GenIntegrator'
+
+
+def session_member_block(member, style):
+    """source lines defining the stepper classes and the integrator class of
+    one member, ending with the names it defines"""
+    L = []
+    done = []
+    for a in member['arrays']:
+        st = a.get('stepper')
+        if st and st['cls'] not in done:
+            done.append(st['cls'])
+            L += stepper_source(st['cls'], st['methods'], st['hooks'],
+                                st.get('shapes')).rstrip('\n').split('\n')
+    ig = member['integrator']
+    if ig['kind'] == 'generated':
+        src = ig['source'].rstrip('\n').split('\n')
+        if style == 'type':
+            L += src
+            L.append("%s = type('%s', (Integrator,), {'one_timestep': one_timestep})"
+                     % (SESSION_INTEG, SESSION_INTEG))
+        else:
+            L.append('class %s(Integrator):' % SESSION_INTEG)
+            L += ['    ' + ln if ln else '' for ln in src]
+    else:
+        m, c = ig['cls'].rsplit('.', 1)
+        L.append('import %s as _bm' % m)
+        if style == 'type':
+            L.append("%s = type('%s', (_bm.%s,), {})" % (SESSION_INTEG, SESSION_INTEG, c))
+        else:
+            L.append('class %s(_bm.%s):' % (SESSION_INTEG, c))
+            L.append('    pass')
+    return L, done + [SESSION_INTEG]
+
+
+def session_module_source(sconf):
+    sid = config_id(sconf)
+    L = ['from pysph.sph.integrator_step import IntegratorStep',
+         'from pysph.sph.equation import Equation',
+         'from pysph.sph.integrator import Integrator',
+         'from compyle.api import declare',
+         '_HOOK = [None]', '_MEMBERS = {}', '_TREQ = {}', '']
+    for k, member in enumerate(sconf['members']):
+        nm = 'TrEq_%s_%d' % (sid, k)
+        L.append(EQ_SOURCE.replace('TrEq_CID', nm))
+        L.append('_TREQ[%d] = %s' % (k, nm))
+    style = sconf['style']
+    if style == 'factory':
+        L.append('def make_member(which):')
+        for k, member in enumerate(sconf['members']):
+            blk, names = session_member_block(member, style)
+            L.append('    %s which == %d:' % ('if' if k == 0 else 'elif', k))
+            L += ['        ' + ln if ln else '' for ln in blk]
+        L.append('    else:')
+        L.append('        raise ValueError(which)')
+        # the same local names whatever branch ran
+        L.append('    _MEMBERS[which] = dict((k, v) for k, v in locals().items() '
+                 "if k != 'which' and not k.startswith('_'))")
+    elif style in ('redefine', 'type'):
+        L.append('def make_member(which):')
+        L.append('    pass        # all members exist once the module is imported')
+        for k, member in enumerate(sconf['members']):
+            blk, names = session_member_block(member, style)
+            L += blk
+            L.append('_MEMBERS[%d] = dict(%s)' % (k, ', '.join('%s=%s' % (n, n) for n in names)))
+            L.append('')
+    else:
+        raise ValueError('unknown session style %r' % (style,))
+    return '\n'.join(L) + '\n'
+
+
+class SessionView(object):
+    """what run_case needs of a module, for member k of a session"""
+
+    def __init__(self, mod, k):
+        if k not in mod._MEMBERS:
+            mod.make_member(k)
+        for n, v in mod._MEMBERS[k].items():
+            setattr(self, n, v)
+        self.TrEq = mod._TREQ[k]
+        self._HOOK = mod._HOOK
+
+
+# --------------------------------------------------------------------------
 # running the real code
 
 class Recorder(object):
@@ -497,7 +597,7 @@ def ops_with_ids(case):
 
 def load_integrator_class(config, mod):
     ig = config['integrator']
-    if ig['kind'] == 'generated':
+    if ig['kind'] == 'generated' or ig.get('derived'):
         return mod.GenIntegrator
     q = ig['cls']
     m, c = q.rsplit('.', 1)
@@ -1092,6 +1192,61 @@ def run_numeric_case(config, case, mod):
     return {'bad': bad[:6], 'nbad': len(bad), 'cb_ok': cb_lit == cb_obs,
             'cb': [cb_lit[:3], cb_obs[:3]], 'props': sorted(props)}
 
+def tracer_result(config, case, mod, cls):
+    """one case of one configuration on the real code + the literal reading"""
+    r = {'case': case}
+    try:
+        out = run_case(config, case, mod)
+    except Exception:      # noqa
+        r['error'] = traceback.format_exc()[-1500:]
+        return r
+    if out['compile_error']:
+        r['compile_error'] = out['compile_error']
+        # what the literal reading says about it
+        n0 = {a['name']: (len(case['x'][a['name']]), 0) for a in config['arrays']}
+        lit, info = literal_events(config, case, cls, n0)
+        r['literal'] = lit
+        r['literal_info'] = info
+        return r
+    obs, probs = canon_observed(config, case, out)
+    if out['raised']:
+        obs.append('x:' + out['raised'])
+    r['observed'] = obs
+    r['problems'] = probs
+    r['n0'] = out['n0']
+    r['overflow'] = out['overflow']
+    r['c_regs'] = out['c_regs']
+    r['final'] = out['final']
+    lit, info = literal_events(config, case, cls, out['n0'])
+    r['literal'] = lit
+    r['literal_info'] = info if lit is None else None
+    # neighbour oracle: after a refresh the evaluator must see the
+    # neighbours of the positions as they are at that moment
+    nb = []
+    if lit is not None:
+        refreshed = info
+        for k, (pos, index, seen) in enumerate(out.get('evals', [])):
+            if k >= len(refreshed) or not refreshed[k]:
+                continue
+            snap = out['snaps'].get(pos)
+            if snap is None:
+                continue
+            allx = [v for n in out['names'] for v in snap[n][1]]
+            r2 = (2.0 * HSM) ** 2
+            for n in out['names']:
+                for di, nn, x2 in seen.get(n, []):
+                    xi = snap[n][1][di]
+                    want = sum(1 for xj in allx if (xi - xj) ** 2 < r2)
+                    if want != int(nn):
+                        nb.append((k, index, n, di, xi, want, int(nn)))
+    r['nbr_bad'] = nb[:5]
+    r['domain_bad'] = [(k, b[:3]) for k, b in out['domain'] if b][:3]
+    r['n_domain'] = len(out['domain'])
+    r['ghosts_present'] = out['ghosts_present']
+    r['domain'] = list(case_domain(case))
+    return r
+
+
 # --------------------------------------------------------------------------
 # worker: one compiled module configuration, several cases
 
@@ -1104,12 +1259,13 @@ def worker(job):
     modname = 'c04tr_' + cid
     with open(os.path.join(d, modname + '.py'), 'w') as fh:
         fh.write(numeric_module_source(config) if config.get('numeric')
+                 else session_module_source(config) if config.get('session')
                  else module_source(config))
     sys.path.insert(0, d)
     results = []
     try:
         mod = importlib.import_module(modname)
-        cls = load_integrator_class(config, mod)
+        cls = None if config.get('session') else load_integrator_class(config, mod)
         if config.get('numeric'):
             for ci, case in enumerate(cases):
                 print('case %d: %s' % (ci, json.dumps(case, sort_keys=True)), flush=True)
@@ -1120,61 +1276,33 @@ def worker(job):
                     r['error'] = traceback.format_exc()[-1500:]
                 results.append(r)
             return {'config': config, 'results': results, 'secs': time.time() - t0}
+        if config.get('session'):
+            # members in the order of the session case, all in THIS process
+            for ci, scase in enumerate(cases):
+                for pos, el in enumerate(scase['seq']):
+                    member = config['members'][el['member']]
+                    print('session case %d element %d (member %d): %s'
+                          % (ci, pos, el['member'], json.dumps(el['case'], sort_keys=True)),
+                          flush=True)
+                    try:
+                        view = SessionView(mod, el['member'])
+                        r = tracer_result(member, el['case'], view,
+                                          load_integrator_class(member, view))
+                    except Exception:      # noqa
+                        r = {'case': el['case'], 'error': traceback.format_exc()[-1500:]}
+                    r['member'] = el['member']
+                    r['pos'] = pos
+                    try:
+                        r['cls_names'] = [view.GenIntegrator.__module__,
+                                          view.GenIntegrator.__qualname__]
+                    except Exception:      # noqa
+                        r['cls_names'] = ['?', '?']
+                    r['session_case'] = {'seq': scase['seq'][:pos + 1]}
+                    results.append(r)
+            return {'config': config, 'results': results, 'secs': time.time() - t0}
         for ci, case in enumerate(cases):
             print('case %d: %s' % (ci, json.dumps(case, sort_keys=True)), flush=True)
-            r = {'case': case}
-            try:
-                out = run_case(config, case, mod)
-            except Exception:      # noqa
-                r['error'] = traceback.format_exc()[-1500:]
-                results.append(r)
-                continue
-            if out['compile_error']:
-                r['compile_error'] = out['compile_error']
-                # what the literal reading says about it
-                n0 = {a['name']: (len(case['x'][a['name']]), 0) for a in config['arrays']}
-                lit, info = literal_events(config, case, cls, n0)
-                r['literal'] = lit
-                r['literal_info'] = info
-                results.append(r)
-                continue
-            obs, probs = canon_observed(config, case, out)
-            if out['raised']:
-                obs.append('x:' + out['raised'])
-            r['observed'] = obs
-            r['problems'] = probs
-            r['n0'] = out['n0']
-            r['overflow'] = out['overflow']
-            r['c_regs'] = out['c_regs']
-            r['final'] = out['final']
-            lit, info = literal_events(config, case, cls, out['n0'])
-            r['literal'] = lit
-            r['literal_info'] = info if lit is None else None
-            # neighbour oracle: after a refresh the evaluator must see the
-            # neighbours of the positions as they are at that moment
-            nb = []
-            if lit is not None:
-                refreshed = info
-                for k, (pos, index, seen) in enumerate(out.get('evals', [])):
-                    if k >= len(refreshed) or not refreshed[k]:
-                        continue
-                    snap = out['snaps'].get(pos)
-                    if snap is None:
-                        continue
-                    allx = [v for n in out['names'] for v in snap[n][1]]
-                    r2 = (2.0 * HSM) ** 2
-                    for n in out['names']:
-                        for di, nn, x2 in seen.get(n, []):
-                            xi = snap[n][1][di]
-                            want = sum(1 for xj in allx if (xi - xj) ** 2 < r2)
-                            if want != int(nn):
-                                nb.append((k, index, n, di, xi, want, int(nn)))
-            r['nbr_bad'] = nb[:5]
-            r['domain_bad'] = [(k, b[:3]) for k, b in out['domain'] if b][:3]
-            r['n_domain'] = len(out['domain'])
-            r['ghosts_present'] = out['ghosts_present']
-            r['domain'] = list(case_domain(case))
-            results.append(r)
+            results.append(tracer_result(config, case, mod, cls))
     except BaseException:      # noqa
         return {'config': config, 'fatal': traceback.format_exc()[-3000:],
                 'results': results, 'secs': time.time() - t0}
@@ -1508,6 +1636,47 @@ def classify(config, want, got):
     return 'C04:%s:%s-instead-of-%s' % (who, kg, kw)
 
 
+def session_model(sconf, results, tab, R):
+    """Model/StepperSession.lean on the session as it was run: the elements in
+    order, each class under the names the process saw.  The body the model
+    pastes for element k becomes the program of its `hist` lines (so the model
+    of the process is part of the tie with the observed events); it must also
+    be the translation of the member's own text (session_compiles_own_text)."""
+    ms = []
+    own = []
+    for r in results:
+        member = sconf['members'][r['member']]
+        ig = member['integrator']
+        pw = T2L.wire_program(program_of(member, tab))
+        own.append(pw)
+        mod_, qual = r.get('cls_names') or ['?', '?']
+        ms.append('%s~%s~%s~%s' % (mod_, qual, '@' + ig['cls'] if ig['kind'] == 'shipped' else pw,
+                                   config_id(member)))
+    if not ms:
+        return
+    out = H.run_model('C04', ['session members=' + '|'.join(ms)])
+    if len(out) != 1 or out[0] == 'bad-op':
+        raise SystemExit('model driver rejected the session line: %r' % (out[:1],))
+    got = out[0].split('|')
+    if len(got) != len(results):
+        raise SystemExit('session model answered %d programs for %d elements'
+                         % (len(got), len(results)))
+    for k, (r, g, w) in enumerate(zip(results, got, own)):
+        r['session_prog'] = g
+        if g != w:
+            R.disagree({'config': sconf, 'case': r['session_case']}, w, g,
+                       'theorem session_compiles_own_text contradicted at run time (element %d)' % k)
+    # the generator's promise: different members under equal class names
+    names = {}
+    for r in results:
+        names.setdefault(tuple(r.get('cls_names') or ()), set()).add(r['member'])
+    ncoll = sum(1 for v in names.values() if len(v) > 1)
+    R.count('session:equal-(module,qualname)-different-classes', ncoll)
+    if results and len(set(r['member'] for r in results)) > 1 and not ncoll:
+        raise SystemExit('session generator: no two members share (module, qualname): %r'
+                         % (sorted(names),))
+
+
 def evaluate(jobs_out, tab, R, gen_table):
     """model run + three-way comparison for everything the workers returned"""
     lines = []
@@ -1516,9 +1685,9 @@ def evaluate(jobs_out, tab, R, gen_table):
         config = jo['config']
         if 'fatal' in jo:
             raise SystemExit('worker failed for %s:\n%s' % (
-                json.dumps(config['integrator']), jo['fatal']))
+                json.dumps(config.get('integrator') or config.get('style')), jo['fatal']))
         for cr in jo.get('crashed', []):
-            ig_ = config['integrator']
+            ig_ = config.get('integrator') or {'kind': 'shipped', 'cls': 'session'}
             who_ = ig_['cls'].rsplit('.', 1)[-1] if ig_['kind'] == 'shipped' else 'generated'
             R.prop_fail('C04:%s:crash' % who_, {'config': config, 'case': cr['case']},
                         'every step of the history returns and leaves the particles in the '
@@ -1529,37 +1698,68 @@ def evaluate(jobs_out, tab, R, gen_table):
         if config.get('numeric'):
             evaluate_numeric(jo, R)
             continue
-        prog = program_of(config, tab)
-        ig = config['integrator']
-        pw = T2L.wire_program(prog)
-        for a_ in config['arrays']:
-            st_ = a_.get('stepper') or {}
-            for m_ in st_.get('methods', []):
-                R.count('method-shape:%s' % st_.get('shapes', {}).get(m_, 'plain'))
-        if ig['kind'] == 'shipped':
-            # the committed/generated Lean table must be the translation of
-            # this very tree
-            if gen_table.get(ig['cls'], (None, None))[1] != pw:
-                R.disagree({'config': config}, gen_table.get(ig['cls']), pw,
-                           'Gen/Timesteps.lean is not the translation of this tree')
-            pw_model = '@' + ig['cls']
+        if config.get('session'):
+            # every element of a session is judged like a configuration run
+            # alone: against the literal reading of ITS OWN class.  The failing
+            # input reported is the session up to and including the element
+            # (the members before it are what makes the process "used").
+            R.count('session-style:%s' % config['style'])
+            R.count('sessions')
+            units = [(config['members'][r['member']], [r],
+                      {'config': config, 'case': r['session_case']}) for r in jo['results']]
+            session_model(config, jo['results'], tab, R)
         else:
-            pw_model = pw
-        for r in jo['results']:
-            if 'error' in r:
-                raise SystemExit('case failed to run: %s\n%s' % (
-                    json.dumps({'config': config, 'case': r['case']}), r['error']))
-            n0 = r.get('n0') or {a['name']: (len(r['case']['x'][a['name']]), 0)
-                                 for a in config['arrays']}
-            lines.append(model_line(config, r['case'], pw_model, n0, 'impl'))
-            lines.append(model_line(config, r['case'], pw_model, n0, 'lit'))
-            index.append((config, r, prog))
+            units = [(config, jo['results'], None)]
+        for mconfig, rs, sfull in units:
+            prog = program_of(mconfig, tab)
+            ig = mconfig['integrator']
+            pw = T2L.wire_program(prog)
+            for a_ in mconfig['arrays']:
+                st_ = a_.get('stepper') or {}
+                for m_ in st_.get('methods', []):
+                    R.count('method-shape:%s' % st_.get('shapes', {}).get(m_, 'plain'))
+            if ig['kind'] == 'shipped':
+                # the committed/generated Lean table must be the translation of
+                # this very tree
+                if gen_table.get(ig['cls'], (None, None))[1] != pw:
+                    R.disagree({'config': mconfig}, gen_table.get(ig['cls']), pw,
+                               'Gen/Timesteps.lean is not the translation of this tree')
+                pw_model = '@' + ig['cls']
+            else:
+                pw_model = pw
+            if sfull is not None and rs[0].get('session_prog'):
+                # the body the session model (Model/StepperSession.lean) pastes
+                # for this element, after the elements before it
+                pw_model = rs[0]['session_prog']
+            for r in rs:
+                full = sfull or {'config': mconfig, 'case': r['case']}
+                if 'error' in r and sfull is None:
+                    raise SystemExit('case failed to run: %s\n%s' % (
+                        json.dumps(full), r['error']))
+                if 'error' in r:
+                    # in a session: the same code ran for the members before
+                    who_ = ig['cls'].rsplit('.', 1)[-1] if ig['kind'] == 'shipped' else 'generated'
+                    R.prop_fail('C04:%s:raises' % who_, full,
+                                'element %d of the session (member %d) compiles and its steps '
+                                'return, whatever was compiled before it in the process'
+                                % (r['pos'], r['member']), r['error'][-800:])
+                    R.case(json.dumps(full, sort_keys=True), True, None)
+                    continue
+                n0 = r.get('n0') or {a['name']: (len(r['case']['x'][a['name']]), 0)
+                                     for a in mconfig['arrays']}
+                lines.append(model_line(mconfig, r['case'], pw_model, n0, 'impl'))
+                lines.append(model_line(mconfig, r['case'], pw_model, n0, 'lit'))
+                index.append((mconfig, r, prog, full))
     out = H.run_model('C04', lines) if lines else []
     if len(out) != len(lines):
         raise SystemExit('model driver answered %d lines for %d' % (len(out), len(lines)))
-    for k, (config, r, prog) in enumerate(index):
+    for k, (config, r, prog, full) in enumerate(index):
         case = r['case']
-        full = {'config': config, 'case': case}
+        if 'pos' in r:
+            R.count('session-element-position:%d' % r['pos'])
+            R.count('session-member:%s' % ('inherits-shipped-one_timestep'
+                                           if config['integrator'].get('derived') else
+                                           'own-one_timestep'))
         m_impl, m_lit = out[2 * k], out[2 * k + 1]
         if m_impl == 'bad-op' or m_lit == 'bad-op':
             raise SystemExit('model driver rejected: ' + lines[2 * k])
@@ -1960,6 +2160,69 @@ def corpus_configs(tab):
     return out
 
 
+def collide_names(config):
+    """rename the stepper classes of a configuration to G900_<i> (in order of
+    first use): in a session every member uses the SAME class names"""
+    ren = {}
+    for a in config['arrays']:
+        st = a.get('stepper')
+        if st:
+            ren.setdefault(st['cls'], 'G900_%d' % len(ren))
+            st['cls'] = ren[st['cls']]
+    return config
+
+
+def gen_session(rng, tab, style, nmembers, nderived=1):
+    """-> (session configuration, [one session case]).  Members: generated
+    integrators with pairwise different one_timestep texts and stage sets and
+    `nderived` subclasses of different shipped integrators that inherit
+    one_timestep; every member is visited once, in order, then some of them
+    again (the class compiled first is compiled once more AFTER the others)."""
+    members = []
+    texts = set()
+    while len(members) < nmembers - nderived:
+        cfg = collide_names(generated_config(rng, 900))
+        if cfg['integrator']['source'] in texts:
+            continue
+        texts.add(cfg['integrator']['source'])
+        members.append(cfg)
+    for q in rng.sample(sorted(q for q in PAIRING if q in tab['integrators']), nderived):
+        cfg = collide_names(shipped_config(q, tab, rng, rng.randrange(6)))
+        cfg['integrator']['derived'] = True
+        members.append(cfg)
+    rng.shuffle(members)
+    order = list(range(nmembers)) + rng.sample(range(nmembers), min(2, nmembers))
+    seq = []
+    for j, mi in enumerate(order):
+        m = members[mi]
+        seq.append({'member': mi, 'case': gen_case(rng, m, program_of(m, tab), rng.randrange(24))})
+    return {'session': True, 'style': style, 'members': members}, [{'seq': seq}]
+
+
+def corpus_sessions(tab):
+    """seed A4 (minimised): get_timestep_code remembered the body of
+    one_timestep per (cls.__module__, cls.__qualname__).  Two integrator classes
+    from the branches of one factory: kick-drift, then drift-kick."""
+    stp = {'cls': 'G900_0', 'methods': ['stage1', 'stage2'], 'hooks': []}
+    kd = ('def one_timestep(self, t, dt):\n    self.compute_accelerations()\n    self.stage2()\n'
+          '    self.do_post_stage(0.5*dt, 1)\n    self.stage1()\n    self.update_domain()\n'
+          '    self.do_post_stage(dt, 2)\n')
+    dk = ('def one_timestep(self, t, dt):\n    self.stage1()\n    self.update_domain()\n'
+          '    self.do_post_stage(0.25*dt, 1)\n    self.compute_accelerations()\n'
+          '    self.stage2()\n    self.do_post_stage(dt, 2)\n')
+    mem = [{'integrator': {'kind': 'generated', 'source': src},
+            'arrays': [{'name': 'fluid', 'stepper': dict(stp)}], 'nev': 1} for src in (kd, dk)]
+    mem.append({'integrator': {'kind': 'shipped', 'cls': 'pysph.sph.integrator.EulerIntegrator',
+                               'derived': True},
+                'arrays': [{'name': 'fluid', 'stepper': {'cls': 'G900_0', 'methods': ['stage1'],
+                                                         'hooks': ['stage1']}}], 'nev': 1})
+    case = {'x': {'fluid': [1, 20, 40]}, 'steps': [[0.0, 0.125], [0.125, 0.125]], 'cb': True,
+            'mv': {'fluid': 1}, 'sid': {'fluid': 3}, 'grow': {}, 'domain': 'periodic',
+            'fixed_h': False}
+    return [({'session': True, 'style': 'factory', 'members': mem},
+             [{'seq': [{'member': k, 'case': dict(case)} for k in (0, 1, 2, 0)]}])]
+
+
 def build_jobs(tier, seed, work, tab, R):
     rng = random.Random(seed * 104729 + 4)
     quick = tier == 'quick'
@@ -1987,6 +2250,18 @@ def build_jobs(tier, seed, work, tab, R):
         pick = [q for q in shipped if q in tab['integrators']]
         ngen, ncases, variants = 28, 14, 3
     jobs = []
+    # sessions first: they are the longest jobs (members compiled one after the
+    # other in one process)
+    for config, cases in corpus_sessions(tab):
+        jobs.append((config, cases, work))
+    nsess = 3 if quick else 9
+    for si in range(nsess):
+        config, cases = gen_session(rng, tab, SESSION_STYLES[si % len(SESSION_STYLES)],
+                                    3 if quick else rng.choice([3, 4]),
+                                    1 if quick else rng.choice([1, 2]))
+        jobs.append((config, cases, work))
+    if os.environ.get('C04_ONLY') == 'sessions':       # debugging aid
+        return jobs, pick
     for config, cases in corpus_configs(tab):
         jobs.append((config, cases, work))
     for q in pick:
